@@ -1,10 +1,12 @@
 -------------------------- MODULE ApertureAbsTrace --------------------------
 (* Batched validation of implementation traces against ApertureAbs (C06).   *)
-(* Trace: cfg = [minS,maxS,minL,maxL,sc,win,tol,btol,S0,a0,i0,t0]; events:   *)
+(* Trace: cfg = [minS,maxS,minL,maxL,sc,win,tol,btol,ref,rtol,S0,a0,i0,t0];  *)
+(* events:                                                                   *)
 (*  Join/Leave{m}  Create{c,m}  Chan{c,st}  OpenCall{c}  OpenDone{c,ok}      *)
 (*  CloseSeen{c}  Tick  Q{proj,act,idl}  Disp{r,c,s,..}  Comp{r,s,..}        *)
 (* every event with t (ms) and the gauges a,i after it; Disp/Comp with s=1   *)
-(* carry the sample fields lo,hi,sB,iB,hB,avg (see ApertureAbs).             *)
+(* carry the sample fields lo,hi,sB,iB,hB,avg (see ApertureAbs); every        *)
+(* Disp/Comp carries u, the microseconds of its instant within the ms t.      *)
 EXTENDS ApertureAbs, Json, IOUtils
 
 Traces == ndJsonDeserialize(IOEnv.TRACE_FILE)
@@ -20,10 +22,11 @@ TInit == /\ tid \in 1..Len(Traces)
          /\ verdict = "ok"
          /\ reqs = {}
          /\ AInit([minS |-> Cfg.minS, maxS |-> Cfg.maxS, minL |-> Cfg.minL, maxL |-> Cfg.maxL,
-                   sc |-> Cfg.sc, win |-> Cfg.win, tol |-> Cfg.tol, btol |-> Cfg.btol],
+                   sc |-> Cfg.sc, win |-> Cfg.win, tol |-> Cfg.tol, btol |-> Cfg.btol,
+                   ref |-> Cfg.ref, rtol |-> Cfg.rtol],
                   {Cfg.S0[x] : x \in DOMAIN Cfg.S0}, Cfg.a0, Cfg.i0, Cfg.t0)
 
-Samp(e, k) == [k |-> k, t |-> e.t, lo |-> e.lo, hi |-> e.hi, sB |-> e.sB, iB |-> e.iB, hB |-> e.hB,
+Samp(e, k) == [k |-> k, t |-> e.t, u |-> e.u, lo |-> e.lo, hi |-> e.hi, sB |-> e.sB, iB |-> e.iB, hB |-> e.hB,
                avg |-> e.avg, a |-> e.a, i |-> e.i]
 
 CheckOf(e) ==
@@ -37,10 +40,10 @@ CheckOf(e) ==
     [] e.e = "Disp" -> IF e.r \in reqs THEN "harness.freshRequest"
                        ELSE IF e.c < 0 THEN NoMemberCheck(ab, e.t, e.a, e.i)
                        ELSE IF e.s = 1 THEN SampleCheck(ab, Samp(e, 1))
-                       ELSE BlindCheck(ab, 1, e.t, e.a, e.i)
+                       ELSE BlindCheck(ab, 1, e.t, e.u, e.a, e.i)
     [] e.e = "Comp" -> IF e.r \notin reqs THEN "harness.knownRequest"
                        ELSE IF e.s = 1 THEN SampleCheck(ab, Samp(e, -1))
-                       ELSE BlindCheck(ab, -1, e.t, e.a, e.i)
+                       ELSE BlindCheck(ab, -1, e.t, e.u, e.a, e.i)
     [] OTHER -> "harness.unknownEvent"
 
 UpdOf(e) ==
@@ -53,9 +56,9 @@ UpdOf(e) ==
     [] e.e = "Q" -> QuietUpd(ab, e.t, e.a, e.i, e.proj, e.act, e.idl)
     [] e.e = "Disp" -> IF e.c < 0 THEN NoMemberUpd(ab, e.t, e.a, e.i)
                        ELSE IF e.s = 1 THEN SampleUpd(ab, Samp(e, 1))
-                       ELSE BlindUpd(ab, 1, e.t, e.a, e.i)
+                       ELSE BlindUpd(ab, 1, e.t, e.u, e.a, e.i)
     [] e.e = "Comp" -> IF e.s = 1 THEN SampleUpd(ab, Samp(e, -1))
-                       ELSE BlindUpd(ab, -1, e.t, e.a, e.i)
+                       ELSE BlindUpd(ab, -1, e.t, e.u, e.a, e.i)
 
 ReqsOf(e) ==
   CASE e.e = "Disp" -> IF e.c < 0 THEN reqs ELSE reqs \cup {e.r}
